@@ -312,6 +312,7 @@ func main() {
 	freeSeen := map[string]int{}
 	reported := map[string]bool{}
 	sampleSeen := map[string]int{}
+	outside := map[string]int{} // behaviour outside the property's statement, evidence only
 	disagree := func(key, desc string, replay map[string]any) {
 		if reported[key] {
 			return
@@ -326,7 +327,8 @@ func main() {
 
 	// run one concrete instance of row r; maxAmounts replaces every non-zero
 	// amount by 2^64-1 (the gate only asks "zero or not")
-	runOne := func(r *row, pv uint, maxAmounts bool, crossParams bool, tag string) {
+	runOne := func(r *row, pv uint, maxAmounts bool, crossParams bool, tag string) map[string]string {
+		seen := map[string]string{}
 		bd := bundles[r.Params]
 		n := len(r.Wds)
 		amounts := make([]uint64, n)
@@ -422,15 +424,21 @@ func main() {
 		// (a) the rule function
 		rep.Guard(key, replay, func() {
 			got := classify(conway.UtxoValidateWithdrawals(tx, 1000, ls, pp))
+			seen["func"] = string(got)
 			if strings.HasPrefix(r.Verdict, "free-") {
 				freeSeen[r.Verdict+" -> "+string(got)]++
+			}
+			if strings.HasPrefix(string(got), "other:") && r.Verdict != "NotDelegated" && r.Verdict != "StateUnavailable" {
+				// rejected for a reason C33 does not talk about: recorded only
+				outside["func rejected by something else than the gate"]++
+				return
 			}
 			if !allowed(r.Verdict, got) {
 				disagree(key+":at=func", fmt.Sprintf("spec verdict %s, conway.UtxoValidateWithdrawals returned %s", r.Verdict, got), replay)
 			}
 		})
 		if crossParams {
-			return
+			return seen
 		}
 		// (b) every entry of the era's rule list
 		gate := map[outcome]bool{}
@@ -459,17 +467,19 @@ func main() {
 		case gate["StateUnavailable"]:
 			listGot = "StateUnavailable"
 		}
+		seen["list"] = string(listGot)
 		if !allowed(r.Verdict, listGot) {
 			disagree(key+":at=list", fmt.Sprintf("spec verdict %s, the entries of %s.UtxoValidationRules raise: %s", r.Verdict, bd.name, listGot), replay)
 		}
 		// (c) VerifyTransaction over the whole list
 		if !fits || maxAmounts {
 			verifySkipped++
-			return
+			return seen
 		}
 		rep.Guard(key, replay, func() {
 			err := common.VerifyTransaction(tx, 1000, ls, pp, bd.rules)
 			got := classify(err)
+			seen["verify"] = string(got)
 			if !r.Valid {
 				// a transaction flagged phase-2-invalid without failing scripts is
 				// rejected by other rules; C33 only says: not by the gate
@@ -478,11 +488,19 @@ func main() {
 				}
 				return
 			}
+			if strings.HasPrefix(string(got), "other:") {
+				// VerifyTransaction stops at the first failing rule; a rejection by
+				// a rule C33 does not talk about says nothing about the gate (the
+				// list observation above covers it): recorded only
+				outside["VerifyTransaction rejected by another rule"]++
+				return
+			}
 			verified++
 			if !allowed(r.Verdict, got) {
 				disagree(key+":at=verify", fmt.Sprintf("spec verdict %s, VerifyTransaction(%s rules) returned %s", r.Verdict, bd.name, got), replay)
 			}
 		})
+		return seen
 	}
 
 	// baseline: a delegated, valid PV10 transaction with two withdrawals must
@@ -510,12 +528,16 @@ func main() {
 		if r.PV == 20 {
 			pvs = bigPV // order-isomorphic: the gate only compares with 10 and 12
 		}
+		var seen map[string]string
 		for pi, pv := range pvs {
 			tag := ""
 			if pi > 0 {
 				tag = fmt.Sprintf(":pvmap=%d", pv)
 			}
-			runOne(r, pv, false, false, tag)
+			o := runOne(r, pv, false, false, tag)
+			if pi == 0 {
+				seen = o
+			}
 		}
 		if len(r.Wds) > 0 {
 			runOne(r, r.PV, true, false, ":amt=max")
@@ -523,12 +545,15 @@ func main() {
 		}
 		if r.Verdict != "ok" && len(r.Wds) == 2 && sampleSeen[r.Verdict+r.Params] == 0 {
 			sampleSeen[r.Verdict+r.Params]++
-			rep.Sample(map[string]any{"case": r.key(), "spec_verdict": r.Verdict, "observed": "func, list and VerifyTransaction agree"})
+			rep.Sample(map[string]any{"case": r.key(), "spec_verdict": r.Verdict, "observed": seen})
 		}
 	}
 	rep.Extra["free_cases_observed"] = freeSeen
+	if len(outside) > 0 {
+		rep.Extra["observed_outside_the_property"] = outside
+	}
 	rep.Extra["verify_transaction_runs_on_valid_cases"] = verified
-	rep.Extra["verify_transaction_skipped_amounts_do_not_fit"] = verifySkipped
+	rep.Extra["verify_transaction_not_run_amt_max_variant_or_sum_over_64_bits"] = verifySkipped
 	rep.Extra["observation_points"] = "conway.UtxoValidateWithdrawals; every entry of conway/dijkstra.UtxoValidationRules; common.VerifyTransaction on signed, balanced transactions decoded from CBOR"
 	rep.Finish()
 }
